@@ -210,6 +210,13 @@ func TestWorker(t *testing.T) {
 			for _, line := range w.Log {
 				fmt.Fprintln(out, line)
 			}
+			seenErr := map[string]int{}
+			for _, e := range w.Errs {
+				seenErr[e.Msg]++
+			}
+			for m, n := range seenErr {
+				fmt.Fprintf(out, "ERR x%d: %s\n", n, m)
+			}
 			if os.Getenv("DST_DUMP") != "" {
 				fmt.Fprintln(out, w.DumpStore(os.Getenv("DST_DUMP")))
 			}
